@@ -16,6 +16,10 @@ import sys
 import time
 
 ROOT = os.path.dirname(os.path.dirname(os.path.abspath(__file__)))
+# outputs of runs against a scratch copy (SVX_REPO, seeded-change evaluation) never overwrite the
+# evidence / replay files of the registered checks
+ALT = os.environ.get("SVX_REPO", "/repo").rstrip("/") != "/repo"
+OUT = os.path.join(ROOT, ".work", "alt", os.path.basename(os.environ.get("SVX_REPO", "x"))) if ALT else ROOT
 PY = os.path.join(ROOT, ".venv", "bin", "python")
 
 STANDING_ASSUMPTIONS = [
@@ -30,11 +34,36 @@ STANDING_ASSUMPTIONS = [
 ]
 
 
+class _UnitTimeout(BaseException):
+    pass
+
+
 def _task(args):
+    """one unit configuration in a worker process, under a wall-clock limit (a runaway symbolic
+    execution -- e.g. term blow-up after a change to the code -- becomes a checker error for that
+    unit, which the bounded native stand-in then examines; never a verdict by itself)."""
+    import signal
+
     name, cfg, want, timeout_ms = args
     from . import contract
 
-    return contract.run_unit_sym(name, cfg, timeout_ms=timeout_ms, want_props=want)
+    limit = int(os.environ.get("SVX_UNIT_LIMIT_S", "600" if timeout_ms <= 20000 else "3000"))
+
+    def on_alarm(signum, frame):
+        raise _UnitTimeout()
+
+    signal.signal(signal.SIGALRM, on_alarm)
+    signal.alarm(limit)
+    try:
+        return contract.run_unit_sym(name, cfg, timeout_ms=timeout_ms, want_props=want)
+    except _UnitTimeout:
+        u = contract.UNITS[name]
+        return ([dict(name=f"{name}/engine[{contract.cfg_str(cfg)}]", props=list(u["props"]), kind="engine", verdict="error",
+                      backend="svx", seconds=float(limit), model=None, unit=name, cfg=cfg, goal="",
+                      detail=f"unit exceeded its wall-clock limit of {limit} s")],
+                dict(unit=name, cfg=cfg, paths=0, wall=float(limit), functions=[]))
+    finally:
+        signal.alarm(0)
 
 
 def _base(name: str) -> str:
@@ -123,6 +152,7 @@ def main(argv=None):
     ap.add_argument("--update-lock", action="store_true")
     ap.add_argument("--jobs", type=int, default=int(os.environ.get("SVX_JOBS", "16")))
     ap.add_argument("--only", default=None, help="comma-separated unit names (debugging)")
+    ap.add_argument("--selfcheck", action="store_true", help="run the units natively on random inputs (engine self-check)")
     ap.add_argument("-v", action="store_true")
     args = ap.parse_args(argv)
     pid, tier = args.pid, args.tier
@@ -135,6 +165,8 @@ def main(argv=None):
 
     if args.replay:
         return replay_file(args.replay)
+    if args.selfcheck:
+        return selfcheck(pid, list(range(seed, seed + 3)), max(1, args.jobs // 2))
 
     from . import boot
 
@@ -195,7 +227,7 @@ def main(argv=None):
     # ---- refutations: replay on the real code, known findings ----------------------------------
     known, fixed = load_known(pid)
     violations, known_hits, undecided = [], [], list(unknown)
-    replay_dir = os.path.join(ROOT, "replay", pid)
+    replay_dir = os.path.join(OUT, "replay", pid)
     groups = {}
     for r in refuted:
         groups.setdefault((r["unit"], json.dumps(r["cfg"], sort_keys=True), _base(r["name"])), []).append(r)
@@ -225,6 +257,46 @@ def main(argv=None):
                        replay_cmd=f"./check {pid} --replay {os.path.relpath(fn, ROOT)}"), open(fn, "w"), indent=1)
         violations.append((base, fn, confirmed))
 
+    # ---- undecided obligations / unsupported constructs: try the REAL code (bounded native stand-in) --
+    # (a) candidate models (sat modulo axiomatised functions) are replayed; (b) units with an engine
+    # error or an undecided obligation are sampled natively with a few seeds.  A clause that fails on
+    # the real code is a violation with a concrete failing input; otherwise the verdict stays
+    # undecided (exit 2) / checker error (exit 3).  Never counted as proved.
+    native_sampled = 0
+    suspects = {}
+    for r in unknown + errors:
+        if r.get("unit"):
+            suspects.setdefault((r["unit"], json.dumps(r["cfg"], sort_keys=True)), []).append(r)
+    confirmed_names = set()
+    for (unit, cfgs), rs in sorted(suspects.items()):
+        cfg = rs[0]["cfg"]
+        tried = []
+        for r in rs:
+            if r.get("model") and len(tried) < 3:
+                model, big = small_model(r)
+                if not big:
+                    tried.append((r, native_replay(unit, cfg, model)))
+        seeds = list(range(seed, seed + (16 if tier == "quick" else 64)))
+        tried.append((None, native_replay(unit, cfg, None, seeds=seeds)))
+        native_sampled += len(seeds)
+        for r, rep in tried:
+            for run in rep.get("runs", []):
+                for nm, ok, detail in run["clauses"]:
+                    if ok is False and nm not in confirmed_names:
+                        kf = next((f for f in known if f["obligation"] == nm), None)
+                        if kf is not None:
+                            continue
+                        confirmed_names.add(nm)
+                        os.makedirs(replay_dir, exist_ok=True)
+                        fn = os.path.join(replay_dir, hashlib.sha1(("native:" + nm).encode()).hexdigest()[:12] + ".json")
+                        json.dump(dict(property=pid, obligation=nm, unit=unit, cfg=cfg,
+                                       verdict="fails on the real code (bounded native run)",
+                                       why_native=(r["detail"][:500] if r else "unit undecided / outside the symbolic engine's reach"),
+                                       model=(r.get("model") if r else None), seed=run.get("seed"),
+                                       native_replay=dict(runs=[run]), native_confirms=True, observed=detail,
+                                       replay_cmd=f"./check {pid} --replay {os.path.relpath(fn, ROOT)}"), open(fn, "w"), indent=1)
+                        violations.append((nm, fn, True))
+
     # ---- evidence -------------------------------------------------------------------------------
     backends = {}
     for r in proved:
@@ -244,6 +316,7 @@ def main(argv=None):
             trusted_base=STANDING_ASSUMPTIONS + sorted({a for u in contract.UNITS.values() if pid in u["props"] for a in u.get("assumes", ())}),
             backends=backends,
             refuted=len(refuted), undecided=len(unknown), checker_errors=len(errors),
+            bounded_native_runs_for_undecided_units=native_sampled,
             known_findings=[dict(obligation=k["obligation"], what=k["what"]) for k, _ in known_hits],
             units=len({m["unit"] for m in metas}), unit_configs=len(metas), paths=sum(m["paths"] for m in metas),
             functions_under_contract=function_hashes(functions),
@@ -257,8 +330,8 @@ def main(argv=None):
         wall_s=round(time.time() - t0, 2),
         violations=len(violations),
     )
-    os.makedirs(os.path.join(ROOT, "evidence"), exist_ok=True)
-    json.dump(ev, open(os.path.join(ROOT, "evidence", f"{pid}.json"), "w"), indent=1)
+    os.makedirs(os.path.join(OUT, "evidence"), exist_ok=True)
+    json.dump(ev, open(os.path.join(OUT, "evidence", f"{pid}.json"), "w"), indent=1)
 
     # ---- report -----------------------------------------------------------------------------------
     print(f"[{pid}] tier={tier} units={len(metas)} obligations={n_obl} proved={discharged} refuted={len(refuted)} "
@@ -273,18 +346,46 @@ def main(argv=None):
         rel = os.path.relpath(fn, ROOT)
         print(f"VIOLATION property={pid} replay={rel}" + ("" if confirmed else " no-failing-input-found"))
         print(f"   obligation {base}")
-    if errors:
-        return 3
     if violations:
         return 1
+    if errors:
+        return 3
     if unknown:
         return 2
     return 0
 
 
+def selfcheck(pid, seeds, jobs):
+    """engine self-check: every unit natively (real compiled code) on random inputs; every clause
+    must hold in floating point.  Not property evidence."""
+    from . import boot
+    boot.boot_symbolic()
+    from . import contract, loader
+    loader.load_contracts()
+    tasks = [(n, c) for n, u in contract.UNITS.items() for c in u["configs"]
+             if pid in ("all",) or pid in u["props"]]
+    tasks = [(n, {k: v for k, v in c.items() if k != "_tier"}) for n, c in tasks]
+    bad = 0
+    from concurrent.futures import ThreadPoolExecutor
+    with ThreadPoolExecutor(jobs) as ex:
+        for (n, c), rep in zip(tasks, ex.map(lambda t: native_replay(t[0], t[1], None, seeds=seeds), tasks)):
+            if "error" in rep:
+                bad += 1
+                print("SELFCHECK-ERROR", n, c, rep["error"][-800:])
+                continue
+            fails = sorted({(nm, d) for run in rep["runs"] for nm, ok, d in run["clauses"] if ok is False})
+            nclauses = sum(len(run["clauses"]) for run in rep["runs"])
+            if fails:
+                bad += 1
+                print("SELFCHECK-FAIL", n, c, fails[:4])
+            else:
+                print("selfcheck ok", n, c, nclauses, "clause evaluations", rep["runs"][0].get("interpreted") or "")
+    return 3 if bad else 0
+
+
 def replay_file(path):
     data = json.load(open(path if os.path.isabs(path) else os.path.join(ROOT, path)))
-    rep = native_replay(data["unit"], data["cfg"], data.get("model"))
+    rep = native_replay(data["unit"], data["cfg"], data.get("model"), seeds=[data.get("seed") or 0])
     print(json.dumps(rep, indent=1)[:6000])
     base = data["obligation"]
     bad = [c for run in rep.get("runs", []) for c in run["clauses"] if c[1] is False]
